@@ -34,16 +34,21 @@ Fixpoint digits_value (acc : N) (s : string) : option N :=
 Definition digits (s : string) : option N :=
   match s with EmptyString => None | _ => digits_value 0 s end.
 
+(* the lexical shape of the grammar rules: "0" | nonzero-digit digit*  (no leading zeros, no "-0") *)
+Definition nonzero_led (ds : string) : bool :=
+  match ds with String c _ => negb (Ascii.eqb c "0"%char) | EmptyString => false end.
+Definition unsigned_shape (ds : string) : bool := String.eqb ds "0" || nonzero_led ds.
+
 (* str::parse::<isize>().unwrap() on an `integer`/`numeral` token *)
 Definition parse_isize (tok : string) : outcome Z :=
   match tok with
   | String "-" ds =>
-    match digits ds with
+    match (if nonzero_led ds then digits ds else None) with
     | Some n => if (isize_min <=? - Z.of_N n)%Z then Value (- Z.of_N n)%Z else Panic
     | None => NotAToken
     end
   | _ =>
-    match digits tok with
+    match (if unsigned_shape tok then digits tok else None) with
     | Some n => if (Z.of_N n <=? isize_max)%Z then Value (Z.of_N n) else Panic
     | None => NotAToken
     end
@@ -51,7 +56,7 @@ Definition parse_isize (tok : string) : outcome Z :=
 
 (* str::parse::<usize>().unwrap() on an `arity` token *)
 Definition parse_usize (tok : string) : outcome N :=
-  match digits tok with
+  match (if unsigned_shape tok then digits tok else None) with
   | Some n => if (n <=? usize_max)%N then Value n else Panic
   | None => NotAToken
   end.
